@@ -207,10 +207,19 @@ func crashSummary(out string) string {
 	return "  | " + strings.Join(keep, "\n  | ")
 }
 
+// linearBudget is the time budget of inputs whose cost is linear in their size (comment nesting: the header grammar
+// never re-scans), 60 s + 15 s per MB.
+func linearBudget(n int) time.Duration {
+	return 60*time.Second + time.Duration(n>>20)*15*time.Second
+}
+
 // checkInChild runs one input in its own child, applies the re-check rule on a timeout and fails the test on a
 // crash / panic / violation, saving the input.
 func checkInChild(t failer, b []byte, label string) childVerdict {
 	d := budget(len(b))
+	if strings.HasPrefix(label, "deep-comment") {
+		d = linearBudget(len(b))
+	}
 	v := runChild(t, [][]byte{b}, d)[0]
 
 	if v.status == "timeout" {
@@ -218,7 +227,7 @@ func checkInChild(t failer, b []byte, label string) childVerdict {
 		v2 := runChild(t, [][]byte{b}, 2*d)[0]
 
 		if v2.status == "timeout" {
-			t.Fatalf("VERIF-VIOLATION non-termination: input (%s, %d bytes) exceeded %v and then %v in a child process; saved as %s", label, len(b), d, 2*d, p)
+			abortRun(fmt.Sprintf("VERIF-VIOLATION non-termination: input (%s, %d bytes) exceeded %v and then %v in a child process; saved as %s", label, len(b), d, 2*d, p))
 		}
 
 		t.Fatalf("VERIF-INCONCLUSIVE: input (%s, %d bytes) exceeded the time budget %v once, %s in %v on re-check; saved as %s", label, len(b), d, v2.status, v2.elapsed, p)
